@@ -2,6 +2,7 @@
 //! the real quick-xml code.  Sub-commands are invoked by /verif/check.
 mod attrs;
 mod de_leg;
+mod dynser;
 #[cfg(feature = "enc")]
 mod enc;
 mod env;
@@ -161,11 +162,13 @@ fn main() {
             std::process::exit(if still { 1 } else { 0 });
         }
         "de-replay" => {
+            de_leg::load_schemas(&get("schemas", ""), get("max-schemas", "40").parse().unwrap());
             let s = de_leg::replay(&de_leg::Opts { file: get("file", ""), prop: get("prop", "C07"), out_dir: get("out-dir", "evidence/replay"), mode: get("mode", "soup"), seed, mutate: get("mutate", "0") == "1",
                 sizes: get("sizes", "1,3").split(',').filter_map(|x| x.parse().ok()).collect() });
             println!("SUMMARY {}", serde_json::to_string(&s).unwrap());
         }
         "de-mutate" => {
+            de_leg::load_schemas(&get("schemas", ""), get("max-schemas", "40").parse().unwrap());
             let s = de_leg::mutate_run(&get("file", ""), &get("prop", "C07"), &get("out-dir", "evidence/replay"), seed, get("per-doc", "5").parse().unwrap());
             println!("SUMMARY {}", serde_json::to_string(&s).unwrap());
         }
